@@ -1,6 +1,7 @@
 (* C10, grammar half for Kotlin, part 5: MULTI-FILE (folder output) mode.  kt_generate_multi (Model/MultiFile.v) differs from
    kt_generate by the package line, `package <package>.<crate>`, and by one import line per imported type,
-   `import <package>.<crate>.<Type>`, after the two fixed imports: the recogniser accepts the file of every crate. *)
+   `import <package>.<crate>.<prefix><Type>` (a class is declared under the prefixed name, so that is the name imported: fix 26 of
+   /repo), after the two fixed imports: the recogniser accepts the file of every crate. *)
 From Coq Require Import List Bool Arith Lia ZifyBool ZifyN NArith String Permutation.
 From TS Require Import Model.Str Model.Outcome Model.Unicode Model.Types Model.Parse Model.Rename Model.TopsortAlgo Model.Topsort
                        Model.Lang.Common Model.Lang.Decl Model.Lang.TypeScript Model.Lang.Kotlin Model.MultiFile.
@@ -32,10 +33,10 @@ Lemma L_import : CFrag (lit "import ") [kw "import"]. Proof. lit_cfrag. Qed.
 Lemma L_nl : CFrag nl []. Proof. lit_cfrag. Qed.
 Lemma L_nl2' : CFrag (nl ++ nl) []. Proof. lit_cfrag. Qed.
 
-Definition user_imports (segs : list str) (im : scoped) : list (list str) :=
-  flat_map (fun kv => map (fun t => segs ++ [fst kv; t]) (snd kv)) im.
+Definition user_imports (pre : str) (segs : list str) (im : scoped) : list (list str) :=
+  flat_map (fun kv => map (fun t => segs ++ [fst kv; pre ++ t]) (snd kv)) im.
 
-Lemma user_imports_ne segs im : Forall (fun i : list str => i <> []) (user_imports segs im).
+Lemma user_imports_ne pre segs im : Forall (fun i : list str => i <> []) (user_imports pre segs im).
 Proof.
   unfold user_imports. induction im as [|[k ts] im IH]; [constructor|]. cbn [flat_map fst snd]. apply Forall_app. split; [|exact IH].
   apply Forall_map. apply Forall_forall. intros t _. destruct segs; discriminate.
@@ -47,9 +48,11 @@ Variable segs : list str.
 Hypothesis Hne : segs <> [].
 Hypothesis Hs : kt_package cfg = join [46] segs.
 Hypothesis Hid : forallb c10k_ident_ok segs = true.
+(* the prefix is empty or an identifier (c10_ktg_cfg_ok): a prefixed identifier is an identifier (kt_prefixed) *)
+Hypothesis Hpre : forall s, c10k_ident_ok s = true -> c10k_ident_ok (kt_prefix cfg ++ s) = true.
 
-(* import <package>.<crate>.<Type> *)
-Lemma import_line_cfrag k t : c10k_ident_ok k = true -> c10k_ident_ok t = true ->
+(* import <package>.<crate>.<Name> *)
+Lemma import_line_cfrag0 k t : c10k_ident_ok k = true -> c10k_ident_ok t = true ->
   CFrag (lit "import " ++ kt_package cfg ++ lit "." ++ k ++ lit "." ++ t ++ nl) (import_toks (segs ++ [k; t])).
 Proof.
   intros Hk Ht. unfold import_toks. replace (kw "import" :: qual_toks (segs ++ [k; t])) with ([kw "import"] ++ qual_toks (segs ++ [k; t]) ++ []) by (rewrite app_nil_r; reflexivity).
@@ -61,13 +64,20 @@ Proof.
   rewrite forallb_app, Hid. cbn [forallb]. rewrite Hk, Ht. reflexivity.
 Qed.
 
+(* import <package>.<crate>.<prefix><Type> *)
+Lemma import_line_cfrag k t : c10k_ident_ok k = true -> c10k_ident_ok t = true ->
+  CFrag (lit "import " ++ kt_package cfg ++ lit "." ++ k ++ lit "." ++ kt_prefix cfg ++ t ++ nl) (import_toks (segs ++ [k; kt_prefix cfg ++ t])).
+Proof.
+  intros Hk Ht. pose proof (import_line_cfrag0 k (kt_prefix cfg ++ t) Hk (Hpre t Ht)) as H. rewrite <- (app_assoc (kt_prefix cfg) t nl) in H. exact H.
+Qed.
+
 
 Lemma write_imports_lines im : c10_ktg_imports_ok im ->
-  CFrag (flat_map (fun kv => flat_map (fun t => lit "import " ++ kt_package cfg ++ lit "." ++ fst kv ++ lit "." ++ t ++ nl) (snd kv)) im)
-        (List.concat (map import_toks (user_imports segs im))).
+  CFrag (flat_map (fun kv => flat_map (fun t => lit "import " ++ kt_package cfg ++ lit "." ++ fst kv ++ lit "." ++ kt_prefix cfg ++ t ++ nl) (snd kv)) im)
+        (List.concat (map import_toks (user_imports (kt_prefix cfg) segs im))).
 Proof.
   induction 1 as [|[k ts] im [Hk Hts] _ IH]; [apply cfrag_nil|]. unfold user_imports. cbn [flat_map fst snd] in *.
-  fold (user_imports segs im). rewrite map_app, concat_app. apply cfrag_app; [|exact IH].
+  fold (user_imports (kt_prefix cfg) segs im). rewrite map_app, concat_app. apply cfrag_app; [|exact IH].
   clear IH. induction ts as [|t ts IHt]; [apply cfrag_nil|]. cbn [forallb] in Hts. apply andb_true_iff in Hts as [Ht Hts].
   cbn [flat_map map List.concat]. apply cfrag_app; [apply import_line_cfrag; assumption|exact (IHt Hts)].
 Qed.
@@ -75,7 +85,7 @@ Qed.
 (* begin_file and write_imports of one crate's file: the package header and the import list of the grammar *)
 Lemma kt_multi_header_gram c im : Proofs.C10_KT.c10_kt_cfg_ok cfg = true -> c10k_ident_ok c = true -> c10_ktg_imports_ok im ->
   CFrag (kt_begin_file_multi cfg c ++ kt_write_imports cfg im)
-        (opackage_toks (Some (segs ++ [c])) ++ List.concat (map import_toks (fixed_imports ++ user_imports segs im))).
+        (opackage_toks (Some (segs ++ [c])) ++ List.concat (map import_toks (fixed_imports ++ user_imports (kt_prefix cfg) segs im))).
 Proof.
   intros Hcfg Hc Him. unfold kt_begin_file_multi, kt_write_imports.
   assert (Hpne : kt_package cfg <> []).
@@ -87,20 +97,20 @@ Proof.
   rewrite map_app, concat_app.
   assert (Hrest : CFrag ((lit "package " ++ kt_package cfg ++ lit "." ++ c ++ nl ++ nl ++
                           lit "import kotlinx.serialization.Serializable" ++ nl ++ lit "import kotlinx.serialization.SerialName" ++ nl ++ nl) ++
-                         flat_map (fun kv => flat_map (fun t => lit "import " ++ kt_package cfg ++ lit "." ++ fst kv ++ lit "." ++ t ++ nl) (snd kv)) im ++ nl)
-                        (opackage_toks (Some (segs ++ [c])) ++ List.concat (map import_toks fixed_imports) ++ List.concat (map import_toks (user_imports segs im)))).
+                         flat_map (fun kv => flat_map (fun t => lit "import " ++ kt_package cfg ++ lit "." ++ fst kv ++ lit "." ++ kt_prefix cfg ++ t ++ nl) (snd kv)) im ++ nl)
+                        (opackage_toks (Some (segs ++ [c])) ++ List.concat (map import_toks fixed_imports) ++ List.concat (map import_toks (user_imports (kt_prefix cfg) segs im)))).
   { change (opackage_toks (Some (segs ++ [c]))) with ([kw "package"] ++ qual_toks (segs ++ [c])). rewrite <- !app_assoc.
     apply cfrag_app; [exact L_package|].
     replace (kt_package cfg ++ lit "." ++ c ++ nl ++ nl ++ lit "import kotlinx.serialization.Serializable" ++ nl ++
              lit "import kotlinx.serialization.SerialName" ++ nl ++ nl ++
-             flat_map (fun kv => flat_map (fun t => lit "import " ++ kt_package cfg ++ lit "." ++ fst kv ++ lit "." ++ t ++ nl) (snd kv)) im ++ nl)
+             flat_map (fun kv => flat_map (fun t => lit "import " ++ kt_package cfg ++ lit "." ++ fst kv ++ lit "." ++ kt_prefix cfg ++ t ++ nl) (snd kv)) im ++ nl)
       with (join [46] (segs ++ [c]) ++
             (nl ++ nl ++ lit "import kotlinx.serialization.Serializable" ++ nl ++ lit "import kotlinx.serialization.SerialName" ++ nl ++ nl) ++
-            flat_map (fun kv => flat_map (fun t => lit "import " ++ kt_package cfg ++ lit "." ++ fst kv ++ lit "." ++ t ++ nl) (snd kv)) im ++ nl).
+            flat_map (fun kv => flat_map (fun t => lit "import " ++ kt_package cfg ++ lit "." ++ fst kv ++ lit "." ++ kt_prefix cfg ++ t ++ nl) (snd kv)) im ++ nl).
     2:{ rewrite join_snoc by exact Hne. rewrite Hs, <- !app_assoc. reflexivity. }
     apply frag_cfrag_app; [apply qual_frag; [destruct segs; [congruence|discriminate]|apply forallb_snoc; assumption]| |reflexivity].
     apply cfrag_app; [exact L_fixed_imports|].
-    rewrite <- (app_nil_r (List.concat (map import_toks (user_imports segs im)))). apply cfrag_app; [apply write_imports_lines, Him|exact L_nl]. }
+    rewrite <- (app_nil_r (List.concat (map import_toks (user_imports (kt_prefix cfg) segs im)))). apply cfrag_app; [apply write_imports_lines, Him|exact L_nl]. }
   destruct (kt_no_version_header cfg).
   - exact Hrest.
   - rewrite <- (app_assoc (lit "/**" ++ nl ++ lit " * Generated by typeshare " ++ kt_version cfg ++ nl ++ lit " */" ++ nl ++ nl)).
@@ -146,11 +156,11 @@ Proof.
   unfold kt_concat in Eb. apply Proofs.C10Common.bind_ok in Eb as (parts & Hp & Eb). injection Eb as <-.
   destruct (kt_body_gram cfg items parts Gcfg Hitems Hp) as (tds & Hfb & Hdb & Hh & Hlen).
   pose proof Gcfg as (_ & _ & [Gp | (segs & Hne & Hs & Hid)]); [congruence|].
-  pose proof (kt_multi_header_gram cfg segs Hne Hs Hid c im Hcfg Hc Him) as Hfh.
+  pose proof (kt_multi_header_gram cfg segs Hne Hs Hid (kt_prefixed cfg Gcfg) c im Hcfg Hc Him) as Hfh.
   exists (List.length tds). split.
   - rewrite app_assoc.
     assert (Hp1 : segs ++ [c] <> []) by (destruct segs; discriminate).
-    assert (His : Forall (fun i : list str => i <> []) (fixed_imports ++ user_imports segs im)).
+    assert (His : Forall (fun i : list str => i <> []) (fixed_imports ++ user_imports (kt_prefix cfg) segs im)).
     { apply Forall_app. split; [unfold fixed_imports; apply Forall_cons; [discriminate|apply Forall_cons; [discriminate|apply Forall_nil]]|apply user_imports_ne]. }
     exact (recognise_file _ (Some (segs ++ [c])) _ tds Hfh Hp1 His _ Hfb Hdb Hh).
   - pose proof (Permutation_length Hperm). lia.
@@ -165,7 +175,7 @@ Example C10_kt_grammar_multi_nonvacuous :
   kt_generate_multi uc_exec kg_cfg (lit "app_core") kgm_imports kg_prog = Ok kgm_text /\
   c10_kt_recognise kgm_text = Some 7%nat /\
   contains_sub (lit "package com.agilebits.onepassword.app_core") kgm_text = true /\
-  contains_sub (lit "import com.agilebits.onepassword.lib_crate.Node") kgm_text = true /\
+  contains_sub (lit "import com.agilebits.onepassword.lib_crate.OPNode") kgm_text = true /\
   c10_kt_recognise (lit "package com.p.3d_tools" ++ nl) = None /\
   c10_kt_recognise (lit "package com.p.lib" ++ nl ++ lit "import com.p.lib-crate.Item" ++ nl) = None.
 Proof.
